@@ -418,6 +418,89 @@ def entry_job(job):
             acc.sample(case)
     return acc
 
+def api_budget_job(job):
+    """The budget belongs to EVERY request an inverter object sends, also to the optional probes in the middle of a public call
+    (model name / meter version / capability reads): a simulated inverter answers the first j transmissions and then goes silent.
+    Every request sent from then on must be transmitted exactly retries+1 times, spaced by the timeout, whatever call it is part of
+    and whatever came before (identification contents with and without a readable model name, refused optional blocks)."""
+    import asyncio
+    from goodwe.exceptions import InverterError
+    from vlib import siminv
+    fam, tcp, variant = job
+    acc = Acc()
+    for (T, R) in ((1.0, 2), (0.5, 1), (2.0, 0), (1.0, 4)):
+        for keep in (True, False):
+            for j in range(0, 14):
+                case = {"api_budget": True, "family": fam, "tcp": tcp, "variant": variant, "T": T, "R": R, "keep": keep, "j": j}
+                _apply(acc, case, check_api_budget)
+    acc.sample(case)
+    return acc
+
+
+API_BUDGET_VARIANTS = {
+    "ET": {"plain": dict(serial=b"9010KETU000W0000", rated_power=10000), "745": dict(serial=b"9025KETT000W0000", rated_power=25000),
+           "745-refusing": dict(serial=b"9025KETT000W0000", rated_power=25000, refuse_blocks=("meter_ext2", "mppt", "battery2")),
+           "nomodel": dict(serial=b"9010KETU000W0000", rated_power=10000, model=b"\xff" * 10)},
+    "DT": {"plain": dict(serial=b"9010KDTU000W0000"), "nomodel": dict(serial=b"9010KDTU000W0000", model=b"\xff" * 10),
+           "nomodel-single": dict(serial=b"9005KDSN000W0000", model=b"\x00\xfe" * 5),
+           "nomodel-refusing": dict(serial=b"9010KDTU000W0000", model=b"\xff" * 10, refuse_blocks=("model", "meter_version"))},
+    "ES": {"plain": dict(serial=b"95048ESU000W0000", firmware=b"02041"), "v2": dict(serial=b"95048ESU000W0000", firmware=b"2525G")},
+}
+
+
+def check_api_budget(acc: Acc, case):
+    import asyncio
+    from goodwe.exceptions import InverterError
+    from vlib import siminv
+    fam, tcp, T, R, j = case["family"], case["tcp"], case["T"], case["R"], case["j"]
+    acc.case()
+    acc.nontrivial("api-budget", fam, tcp, case["variant"], T, R, case["keep"], j)
+    kw = dict(API_BUDGET_VARIANTS[fam][case["variant"]])
+    inv = siminv.make_inverter(fam, tcp, T=T, R=R)
+    inv.set_keep_alive(case["keep"])
+    if fam == "ET":
+        sim = siminv.make_et_sim(default=lambda a: (a * 7 + 3) & 0x7FFF, **kw)
+        sim.set(35184, 1)
+    elif fam == "DT":
+        sim = siminv.make_dt_sim(default=lambda a: (a * 7 + 3) & 0x7FFF, **kw)
+    else:
+        sim = siminv.Aa55Sim(device_info=siminv.es_device_info(**kw), modbus=siminv.ModbusSim(default=lambda a: (a * 7 + 3) & 0x7FFF))
+    peer = ScriptedPeer(siminv.responder_for(inv, sim), [("answer", 1 / 16.0)] * j, default=("drop",))
+    world = World(peer)
+    loop = VLoop(world, max_time=1e6)
+    notes = []
+
+    async def main():
+        for name in ("read_device_info", "read_runtime_data", "read_device_info", "read_settings_data"):
+            try:
+                await getattr(inv, name)()
+                notes.append((name, "ok"))
+            except (InverterError, ValueError) as ex:     # ValueError: a setting that does not decode (not this property's subject)
+                notes.append((name, type(ex).__name__))
+            await asyncio.sleep(0)
+
+    out = loop.run(main())
+    loop.idle()
+    loop.shutdown()
+    key0 = "C05|api-budget|%s|%s" % (fam, "tcp" if tcp else "udp")
+    if out.hang is not None:
+        return [(key0 + "|hang", "never completes: %s after %s" % (out.hang, notes), case)]
+    if out.exc is not None:
+        return [(key0 + "|" + type(out.exc).__name__, "%r after %s" % (out.exc, notes), case)]
+    silent = world.tx[j:]
+    groups = group_requests(silent, tcp=tcp)
+    acc.cls("api-budget|%s|answered=%d|silent-requests=%d" % (fam, min(j, len(world.tx)), len(groups)))
+    for data, times in groups:
+        if len(times) % (R + 1) != 0:
+            return [(key0 + "|retries-not-applied", "request %s (unanswered; %d requests were answered before) was transmitted %d times at %s, "
+                     "configured retries=%d; calls %s" % (data.hex()[:28], j, len(times), [round(t - times[0], 3) for t in times], R, notes), case)]
+        for b in range(0, len(times), R + 1):
+            blk = times[b:b + R + 1]
+            if any(abs((blk[i] - blk[0]) - i * T) > EPS for i in range(len(blk))):
+                return [(key0 + "|timeout-not-applied", "request %s was transmitted at +%s, configured timeout=%r retries=%d; calls %s" % (
+                    data.hex()[:28], [round(t - blk[0], 3) for t in blk], T, R, notes), case)]
+    return []
+
 
 def entry_cases(quick):
     grid = [(0.5, 0), (0.5, 2), (2.0, 1), (4.0, 0), (2.0, 5)] if quick else [
@@ -457,6 +540,8 @@ def run(ctx):
     ctx.shard(hyp_job, [(ctx.seed * 1000 + i, n // 16) for i in range(16)], "hypothesis histories up to 8 steps")
     ec = entry_cases(ctx.quick)
     ctx.shard(entry_job, [ec[i::16] for i in range(16)], "entry points connect/discover/search_inverters against a silent peer")
+    ctx.shard(api_budget_job, [(fam, tcp, v) for fam in ("ET", "DT", "ES") for tcp in ((False, True) if fam != "ES" else (False,)) for v in API_BUDGET_VARIANTS[fam]],
+              "inverter objects of all families: the simulated inverter goes silent after j answered transmissions (j = 0..13); every later request gets retries+1 transmissions spaced by the timeout")
 
 
 def replay(ctx, case):
@@ -464,7 +549,9 @@ def replay(ctx, case):
         from vlib import concur
         concur.replay(ctx.acc, case, concur.INVARIANTS["C05"], "C05")
         return
-    if "entry" in case:
+    if case.get("api_budget"):
+        _apply(ctx.acc, case, check_api_budget)
+    elif "entry" in case:
         _apply(ctx.acc, case, check_entry)
     else:
         _apply(ctx.acc, case)
